@@ -58,6 +58,9 @@ pub fn c01(ctx: &Ctx) -> PropResult {
     for (_, a) in EXEMPLARS {
         cases.push(run_case(format!("{pre}x <- {a}\nk <- 0\nREPEAT UNTIL (x) {{\nk <- k + 1\nIF (k >= 3) {{\nBREAK\n}}\n}}\nDISPLAY(k)\nk <- 0\nREPEAT UNTIL (FALSE OR x) {{\nk <- k + 1\nIF (k >= 2) {{\nBREAK\n}}\n}}\nDISPLAY(k)\nIF (x AND TRUE) {{\nDISPLAY(\"and-truthy\")\n}} ELSE IF (x) {{\nDISPLAY(\"elseif-truthy\")\n}} ELSE {{\nDISPLAY(\"falsy\")\n}}\n"), "condition-truthiness"));
     }
+    for src in fresh_per_evaluation_family() {
+        cases.push(run_case(src, "fresh-per-evaluation"));
+    }
     // the value of + on lists is a new list: changing it later changes neither operand, and vice versa
     for x in ["l", "[]", "[1]", "m", "(l + [])", "([] + l)"] {
         for y in ["l", "[]", "[1]", "m"] {
@@ -87,6 +90,18 @@ pub fn c01(ctx: &Ctx) -> PropResult {
         exhaustive: false,
         notes: vec![],
     }
+}
+
+/// every evaluation of a list-producing expression yields a new list: evaluated twice (in a loop, through a procedure
+/// called twice), the first result changed, both displayed
+pub fn fresh_per_evaluation_family() -> Vec<String> {
+    let mut out = vec![];
+    for e in ["[0, 0]", "[]", "[1]", "[x, 0]", "[[0]]", "base + [1]", "[] + []", "mk()", "[\"a\", TRUE, NULL]", "[0, 0] + [1]", "[[0, 0], [1]]"] {
+        out.push(format!("PROCEDURE mk() {{\nRETURN [0, 0]\n}}\nx <- 5\nbase <- [9]\ngrid <- []\nREPEAT 2 TIMES {{\nAPPEND(grid, {e})\n}}\nAPPEND(grid[1], 7)\nDISPLAY(grid)\nDISPLAY(base)\n"));
+        out.push(format!("PROCEDURE mk() {{\nRETURN [0, 0]\n}}\nPROCEDURE g(x) {{\nbase <- [9]\nr <- {e}\nRETURN r\n}}\na <- g(5)\nb <- g(5)\nAPPEND(a, 7)\nDISPLAY(a)\nDISPLAY(b)\nc <- g(6)\nDISPLAY(c)\n"));
+        out.push(format!("PROCEDURE mk() {{\nRETURN [0, 0]\n}}\nx <- 5\nbase <- [9]\nk <- 0\nREPEAT 3 TIMES {{\nk <- k + 1\nv <- {e}\nDISPLAY(v)\nAPPEND(v, k)\nDISPLAY(LENGTH({e}))\n}}\n"));
+    }
+    out
 }
 
 /// user procedures called from loop headers while BREAK / CONTINUE / RETURN of the loop are in play: the call runs its
@@ -620,9 +635,17 @@ pub fn c04(ctx: &Ctx) -> PropResult {
     }
     // every evaluation of a list-producing expression yields a new list: evaluated twice (loop, procedure called
     // twice), the first result changed, both displayed
-    for e in ["[0, 0]", "[]", "[1]", "[x, 0]", "[[0]]", "base + [1]", "[] + []", "mk()", "[\"a\", TRUE, NULL]"] {
-        cases.push(run_case(format!("PROCEDURE mk() {{\nRETURN [0, 0]\n}}\nx <- 5\nbase <- [9]\ngrid <- []\nREPEAT 2 TIMES {{\nAPPEND(grid, {e})\n}}\nAPPEND(grid[1], 7)\nDISPLAY(grid)\nDISPLAY(base)\n"), "fresh-per-evaluation"));
-        cases.push(run_case(format!("PROCEDURE mk() {{\nRETURN [0, 0]\n}}\nPROCEDURE g(x) {{\nbase <- [9]\nr <- {e}\nRETURN r\n}}\na <- g(5)\nb <- g(5)\nAPPEND(a, 7)\nDISPLAY(a)\nDISPLAY(b)\nc <- g(6)\nDISPLAY(c)\n"), "fresh-per-evaluation"));
+    for src in fresh_per_evaluation_family() {
+        cases.push(run_case(src, "fresh-per-evaluation"));
+    }
+    // FOR EACH over a list of lists binds the loop variable to the element itself (no copying into whatever the
+    // variable held), whatever ends the iteration
+    for ctl in ["", "CONTINUE\n", "BREAK\n"] {
+        for before in ["", "r <- [9]\nkeep <- r\n", "r <- 5\n"] {
+            for at in 1..4 {
+                cases.push(run_case(format!("rows <- [[1], [2], [3]]\nfirst <- rows[1]\n{before}n <- 0\nFOR EACH r IN rows {{\nn <- n + 1\nAPPEND(r, n * 10)\nIF (n == {at}) {{\n{ctl}}}\nAPPEND(r, 0)\n}}\nDISPLAY(rows)\nDISPLAY(first)\nrows[2][1] <- \"x\"\nDISPLAY(rows)\n{}", if before.contains("keep") { "DISPLAY(keep)\nDISPLAY(r)\n" } else { "" }), "for-each-list-of-lists"));
+            }
+        }
     }
     // every index value on a list and a string, read and write
     for i in idx {
@@ -725,6 +748,36 @@ pub fn c05(ctx: &Ctx) -> PropResult {
             let b = pexpr_program(&full, val);
             cases.push(run_case(a, "minimal").aux(b));
         }
+    }
+    // operands that are plain variables: `x` and `(x)` are read at the same moment (twins of the operand-order family)
+    for src in operand_order_family() {
+        let mut twin = String::new();
+        for line in src.split('\n') {
+            if let Some(rest) = line.strip_prefix("r <- ") {
+                // parenthesise every bare occurrence of x / l that is not an assignment target
+                let mut out = String::new();
+                let chars: Vec<char> = rest.chars().collect();
+                let mut i = 0;
+                while i < chars.len() {
+                    let c = chars[i];
+                    let word_start = (c == 'x' || c == 'l') && (i == 0 || !(chars[i - 1].is_alphanumeric() || chars[i - 1] == '_')) && (i + 1 >= chars.len() || !(chars[i + 1].is_alphanumeric() || chars[i + 1] == '_'));
+                    let is_target = word_start && chars[i + 1..].iter().collect::<String>().trim_start().starts_with("<-");
+                    if word_start && !is_target {
+                        out.push('(');
+                        out.push(c);
+                        out.push(')');
+                    } else {
+                        out.push(c);
+                    }
+                    i += 1;
+                }
+                twin.push_str(&format!("r <- {out}\n"));
+            } else {
+                twin.push_str(line);
+                twin.push('\n');
+            }
+        }
+        cases.push(run_case(src, "operand-order").aux(twin.trim_end_matches('\n').to_string() + "\n"));
     }
     // with a required pair of parentheses removed the text means something else (or nothing): the parser must agree
     // with the model on every such text (trees and diagnostics), not only on the well-formed renderings
